@@ -82,7 +82,33 @@ def gen(tier, seed):
         ncol = rng.choice([2, 3, 6])
         n = rng.randrange(6, 40)
         lines.append("tapeops " + "".join(rng.choice("LR") + str(rng.randrange(ncol)) + rng.choice("ns") for _ in range(n)))
+    # sig_compatible: a tape against the signature of ANOTHER tape (both reached by steps): all pairs
+    # of short histories, and random pairs that share a prefix (so that scans and near blocks agree)
+    short = ["".join(t) for t in itertools.product([d + str(c) + "n" for d in "LR" for c in range(3)], repeat=2)]
+    short += ["".join(t) for t in itertools.product(["L1n", "R1n", "L2n", "R2n", "R0n", "L0n", "R1s", "L2s"], repeat=3)]
+    pairs = list(itertools.product(short, repeat=2))
+    if tier != "thorough":
+        pairs = rng.sample(pairs, 20000)
+    lines += [f"sigcompat {a} {b}" for a, b in pairs]
+    for _ in range(20000 if tier == "thorough" else 3000):
+        ncol = rng.choice([2, 3, 4])
+        mk = lambda n: "".join(rng.choice("LR") + str(rng.randrange(ncol)) + rng.choice("nnns") for _ in range(n))
+        pre = mk(rng.randrange(0, 12))
+        lines.append(f"sigcompat {pre + mk(rng.randrange(1, 8))} {pre + mk(rng.randrange(1, 8))}")
     return lines
+
+
+def sig_compatible_from_cells(a, b):
+    """what `sig_compatible` means, read off the cells: same scanned colour, and on each side the
+    tape has at least as many maximal runs as the signature names, with the same colours in order"""
+    (_, la, sa, ra), (_, lb, sb, rb) = a, b
+    if sa != sb:
+        return False
+    for ca, cb in ((la, lb), (ra, rb)):
+        ba, bb = rle(ca), rle(cb)
+        if len(ba) < len(bb) or any(x[0] != y[0] for x, y in zip(ba, bb)):
+            return False
+    return True
 
 
 def check(rep, tier, seed, replay):
@@ -92,8 +118,20 @@ def check(rep, tier, seed, replay):
     mism = diff_streams(rep, lines, impl, model)
     obs_checked = 0
     nontrivial = 0
+    sig_checked = sig_true = 0
     for line, out in zip(lines, impl):
         op, ops = line.split(" ", 1)
+        if op == "sigcompat" and out in ("true", "false"):
+            a, b = ops.split(" ")
+            ta, tb = naive_replay(a), naive_replay(b)
+            exp = sig_compatible_from_cells(ta[-1], tb[-1])
+            obs_checked += 1
+            sig_checked += 1
+            sig_true += exp
+            if (out == "true") != exp:
+                rep.violation("oracle", {"case": line, "impl": out, "expected_from_cells": str(exp).lower(),
+                                         "tape": expected_obs(*ta[-1][1:])[:200], "signature_of": expected_obs(*tb[-1][1:])[:200]})
+            continue
         if out in ("PANIC", "limit:overflow"):
             rep.violation("oracle", {"case": line, "impl": out, "why": "panic on a step sequence"})
             continue
@@ -124,9 +162,12 @@ def check(rep, tier, seed, replay):
     rep.add_counts(len(lines), nontrivial)
     rep.cov["rule"] = (f"all step sequences of length {5 if tier == 'thorough' else 4} over 3 colours x 2 directions x both sweep flags "
                        "(consistent or not), random sequences up to 10^4 steps over <= 6 colours; every observer after every "
-                       "step compared with (a) the Lean model, (b) a cell-level replay. Non-trivial = sequence visiting >= 3 distinct tapes.")
+                       "step compared with (a) the Lean model, (b) a cell-level replay; sig_compatible of a tape against the signature of another tape "
+                       "(pairs of short histories, random pairs sharing a prefix) compared with the model and with the prefix-colour reading of the cells. Non-trivial = sequence visiting >= 3 distinct tapes.")
     rep.cov["samples"] = [lines[0], lines[len(lines) // 3], lines[-1][:120]]
     rep.cov["observer_sets_checked_against_cells"] = obs_checked
+    rep.cov["sig_compatible_pairs_checked_against_cells"] = sig_checked
+    rep.cov["sig_compatible_pairs_true"] = sig_true
     rep.cov["correspondence_mismatches"] = len(mism)
     rep.cov["exhaustive"] = True
     import os
